@@ -21,6 +21,10 @@ def infinity : Nat := 16
     stale neighbours): the infinity metric itself -/
 def boundRounds : Nat := 16
 
+/-- a configuration the daemon accepts must leave room for at least two heartbeats per dead interval,
+    otherwise live neighbours are declared dead between their own heartbeats (no fixed point on stable links) -/
+def deadIntervalOk (advMs deadMs : Nat) : Bool := deadMs ≥ 2 * advMs
+
 /-- an undirected/directed topology on routers `0..n-1` -/
 structure Topo where
   n : Nat
